@@ -113,6 +113,13 @@ func (c11) Gen(tier string, seed int64, emit0 func([]Ev)) {
 				}
 			}
 		}
+		// data longer than PES_packet_length can count (video elementary streams use length 0 for that)
+		if rep == 0 || rep%20 == 0 {
+			for k, dl := range []int{65527, 65536, 70003} {
+				sid := []int{0xe0, 0xbe, 0xe1}[k]
+				emit([]Ev{{"op": "pes", "bytes": B(c11Pes(r, sid, []int{2, 0, 3}[k], r.Intn(4), dl, c11Time(r), c11Time(r))), "lenient": false, "order": r.Intn(1 << 20)}})
+			}
+		}
 		// the library's own PES creation option, end to end: Create(pid, WithPES(pts)) -> PESHeader -> NewPESHeader
 		for k := 0; k < 120; k++ {
 			emit([]Ev{{"op": "withpes", "pid": r.Intn(8192), "pts": W64(c11Time(r))}})
